@@ -18,6 +18,7 @@ from .. import build, core, tsan
 
 LEVEL = "exploration"
 NO_PROGRESS_S = 12.0
+IN_STOP_S = 25.0
 EXIT_PATHS = ("P3", "P4", "P5")
 
 
@@ -109,6 +110,7 @@ def run_child(ctx, sc, idx):
     errf = open(os.path.join(d, "stderr"), "wb")
     p = subprocess.Popen(argv, env=env, stdout=subprocess.DEVNULL, stderr=errf)
     offset, last_change = 0, time.time()
+    last_control, open_stops = last_change, 0
     status = {"hung": False, "stacks": ""}
     while True:
         try:
@@ -116,8 +118,10 @@ def run_child(ctx, sc, idx):
             break
         except subprocess.TimeoutExpired:
             pass
-        # progress = a delivery or a control event (stop/move/marker); producers that merely keep calling do not count
-        progressed = False
+        # progress = a control event (stop begin/end, move, marker, producer finished) or - outside a stop - a delivery.  Producers that
+        # merely keep calling do not count, and neither do deliveries while a stop is open for longer than IN_STOP_S: a stop that is
+        # still "draining" after that long (every scenario's backlog needs a few seconds at most) does not return in bounded time.
+        control = delivered = False
         try:
             with open(evf, "rb") as f:
                 f.seek(offset)
@@ -125,14 +129,19 @@ def run_child(ctx, sc, idx):
             nl = chunk.rfind(b"\n")
             if nl >= 0:
                 offset += nl + 1
-                body = chunk[:nl + 1]
-                progressed = body[:1] in b"DSEM#X" or any(m in body for m in (b"\nD", b"\nS", b"\nE", b"\nM", b"\n#", b"\nX"))
+                body = b"\n" + chunk[:nl + 1]
+                open_stops += body.count(b"\nS ") - body.count(b"\nE ")
+                control = any(m in body for m in (b"\nS ", b"\nE ", b"\nM ", b"\n# ", b"\nX "))
+                delivered = b"\nD " in body
         except OSError:
             pass
         now = time.time()
-        if progressed:
+        if control:
+            last_control = last_change = now
+        elif delivered:
             last_change = now
-        elif now - last_change > NO_PROGRESS_S:
+        stuck = now - last_change > NO_PROGRESS_S or (open_stops > 0 and now - last_control > IN_STOP_S)
+        if stuck:
             status["hung"] = True
             try:
                 g = subprocess.run(["gdb", "-p", str(p.pid), "-batch", "-ex", "thread apply all bt 12"], stdout=subprocess.PIPE,
